@@ -28,6 +28,7 @@ pub fn rx(tier: Tier, segs: usize, lens: Vec<usize>, depth: usize) -> Driver {
         data(2),
         Act::Deliver2(pdata(0), pdata(0)),
         Act::Deliver(Pkt::Fin { off: 0, ack: AckSpec::Cur }),
+        Act::Deliver(Pkt::Fin { off: 1, ack: AckSpec::Cur }),
         Act::Read(1),
         Act::Read(64),
         Act::DropReader,
@@ -123,6 +124,28 @@ pub fn rtx(tier: Tier, max_retx: usize, grown: bool, depth: usize) -> Driver {
         vec![]
     };
     Driver { name: format!("rtx-retx{max_retx}-{}", if grown { "grown" } else { "fresh" }), cfg, prefix, alphabet, depth, state_cap: tier.pick(400_000, 6_000_000) }
+}
+
+/// Acknowledgements that ride on the peer's own data and FIN packets (in order, ahead of a gap,
+/// duplicate) instead of on ST_STATE.
+pub fn rtx_piggyback(tier: Tier, depth: usize) -> Driver {
+    let mut d = rtx(tier, 5, false, depth);
+    let def = WndSpec::Default;
+    d.name = "rtx-piggyback".into();
+    d.cfg.peer_lens = vec![MSS];
+    d.alphabet = vec![
+        Act::Write(3 * MSS),
+        Act::Deliver(Pkt::Data { off: 0, ack: AckSpec::All, wnd: def }),
+        Act::Deliver(Pkt::Data { off: 1, ack: AckSpec::All, wnd: def }),
+        Act::Deliver(Pkt::Data { off: -1, ack: AckSpec::Plus(1), wnd: def }),
+        Act::Deliver(Pkt::Fin { off: 0, ack: AckSpec::All }),
+        Act::Deliver(Pkt::Fin { off: 1, ack: AckSpec::All }),
+        Act::Deliver(Pkt::Fin { off: 1, ack: AckSpec::Plus(1) }),
+        state(AckSpec::Cur, def, SackSpec::None),
+        Act::Tick,
+        Act::Wait(50),
+    ];
+    d
 }
 
 /// After a retransmission timeout that hit during fast recovery (C06: fast retransmit must work again
@@ -429,6 +452,7 @@ pub fn all_drivers(tier: Tier) -> Vec<Driver> {
     v.push(rtx(tier, 2, false, 7));
     v.push(rtx(tier, 5, true, 7));
     v.push(rtx_after_recovery_rto(tier, 7));
+    v.push(rtx_piggyback(tier, 6));
     v.push(tx_slowstart(tier, 6));
     v.push(tx_window_mtu(tier, 6));
     v.extend(fsm_all(tier, 5));
